@@ -112,6 +112,7 @@ func (x *fx) rootContract() *FuncContract {
 
 func (x *fx) staticCall(ci ssa.CallInstruction, fn *ssa.Function, args []Term, free []Term) []Term {
 	e := x.e
+	defer x.lockCall(fn, ci)
 	if root := x.rootContract(); root != nil && x.top {
 		for _, af := range root.ArgFrom {
 			if fn.Name() == af.Callee && af.Arg < len(ci.Common().Args) {
@@ -579,6 +580,7 @@ func (x *fx) builtin(ci ssa.CallInstruction, b *ssa.Builtin) []Term {
 	args := com.Args
 	switch b.Name() {
 	case "len":
+		x.guardedAccess(args[0], false, ci.Pos(), "len")
 		a := x.val(args[0])
 		switch t := args[0].Type().Underlying().(type) {
 		case *types.Map:
@@ -603,6 +605,7 @@ func (x *fx) builtin(ci ssa.CallInstruction, b *ssa.Builtin) []Term {
 		}
 		return []Term{e.declare("cap", "Int")}
 	case "delete":
+		x.guardedAccess(args[0], true, ci.Pos(), "delete")
 		x.mapKeyHashable(args[1], ci.Pos())
 		x.writeTarget(x.val(args[0]), x.describe(args[0]), ci.Pos())
 		x.mapDelete(st, args[0].Type(), x.val(args[0]), x.val(args[1]))
